@@ -745,6 +745,7 @@ func (c *fctx) emitThreaded(e *emitter, ind int, at ast.Node, call *ast.CallExpr
 	fsig := f.Type().(*types.Signature)
 	var ps, rs, args []string
 	var recvX ast.Expr
+	printfLike := false
 	if sel, ok := ast.Unparen(call.Fun).(*ast.SelectorExpr); ok && fsig.Recv() != nil {
 		recvX = sel.X
 		ps = append(ps, c.leanType(at, fsig.Recv().Type()))
@@ -758,6 +759,7 @@ func (c *fctx) emitThreaded(e *emitter, ind int, at ast.Node, call *ast.CallExpr
 					ps = append(ps, c.leanType(at, c.typeOf(a)))
 					args = append(args, c.expr(a))
 				}
+				printfLike = true
 				continue
 			}
 		}
@@ -811,6 +813,11 @@ func (c *fctx) emitThreaded(e *emitter, ind int, at ast.Node, call *ast.CallExpr
 		fexprs = append(fexprs, ex)
 	}
 	an := absName(f)
+	if printfLike {
+		// each call site has its own argument types: one abstract parameter per site
+		c.printfN++
+		an = fmt.Sprintf("%s_%d", an, c.printfN)
+	}
 	c.useAbstractName(an, fmt.Sprintf("(%s : %s → Go.M %s)", an, strings.Join(ps, " → "), tupleType(rs)))
 	t := c.tmp()
 	e.add(ind, fmt.Sprintf("let %s ← %s %s", t, an, strings.Join(args, " ")))
